@@ -313,7 +313,10 @@ func (e *Engine) verifyFunc(fc *FuncContract) (res *FuncResult) {
 			}
 			m := e.beginScope()
 			rs := r.st.clone()
+			// positive universal variables of a postcondition are proved for fresh constants
+			e.skolemGoal, e.pol, e.skolemOf = true, 1, map[*ast.FuncLit][]T{}
 			g := e.evalClause(rs, ens, env)
+			e.skolemGoal, e.pol, e.skolemOf = false, 0, nil
 			e.retTag = r.tag
 			if e.retTag == "" {
 				e.retTag = "end of body"
